@@ -39,7 +39,8 @@ class LoopSpec:
     modifies: heap targets written by the body; variant: spec expression (Int) or None; ghost_*: statements."""
 
     def __init__(self, invariant=(), modifies=(), variant=None, ghost_before=(), ghost_body_start=(),
-                 ghost_body_end=(), unroll=False):
+                 ghost_body_end=(), unroll=False, chain=False):
+        self.chain = chain           # prove the invariant clauses in order, earlier ones usable as lemmas
         self.invariant, self.modifies, self.variant = list(invariant), list(modifies), variant
         self.ghost_before, self.ghost_body_start, self.ghost_body_end = ghost_before, ghost_body_start, ghost_body_end
         self.unroll = unroll
@@ -2063,6 +2064,8 @@ class Engine:
             return Ref(r, v.cls)
         if isinstance(v, ArrVal):
             return ArrVal(self.fresh("hv_" + name, v.arr.sort()), v.elem)
+        if isinstance(v, Tuple_):
+            return Tuple_([self.havoc_like(state, "%s_%d" % (name, i), x) for i, x in enumerate(v.items)])
         if isinstance(v, bool) or (is_z3(v) and z3.is_bool(v)):
             return self.fresh("hv_" + name, BoolS)
         if isinstance(v, int) or (is_z3(v) and z3.is_int(v)):
@@ -2139,9 +2142,11 @@ class Engine:
         label = "%s#loop%s" % (self.cur_func_qual, self.loop_ordinal(st))
         self.run_ghost(state, spec.ghost_before)
         entry_snapshot = state.fork()
+        proved = []
         for i, inv in enumerate(spec.invariant):
-            self.oblige(state, self.eval_spec(state, inv, state.env, entry_snapshot), "inv-entry[%s#%d]" % (label, i),
-                        st, str(inv))
+            g = self.eval_spec(state, inv, state.env, entry_snapshot)
+            self.oblige(state, g, "inv-entry[%s#%d]" % (label, i), st, str(inv), extra_hyps=list(proved) if spec.chain else ())
+            proved.append(g)
         locs = [self.parse_target(state, t, state.env) for t in spec.modifies]
         for loc in locs:
             self.check_frame(state, loc, st)
@@ -2175,9 +2180,12 @@ class Engine:
                 for s2, oc, val in outs:
                     if oc in (Outcome.NORMAL, Outcome.CONTINUE):
                         self.run_ghost(s2, spec.ghost_body_end)
+                        proved = []
                         for i, inv in enumerate(spec.invariant):
-                            self.oblige(s2, self.eval_spec(s2, inv, s2.env, pre_loop), "inv-step[%s#%d]" % (label, i),
-                                        st, str(inv))
+                            g = self.eval_spec(s2, inv, s2.env, pre_loop)
+                            self.oblige(s2, g, "inv-step[%s#%d]" % (label, i), st, str(inv),
+                                        extra_hyps=list(proved) if spec.chain else ())
+                            proved.append(g)
                         if spec.variant:
                             var1 = self.eval_spec_value(s2, spec.variant, s2.env)
                             self.oblige(s2, z3.And(to_z3(var0, IntS) > to_z3(var1, IntS), to_z3(var1, IntS) >= 0),
